@@ -277,6 +277,7 @@ class Env:
         self.flock_objs: Dict[str, Any] = {}       # lock path -> FileLock instance currently holding it
         self.coop_locks: List[Any] = []             # every CoopRLock created (to release what a dead actor held)
         self.lock_deletes: List[Tuple[str, Optional[str]]] = []   # (actor, body of the lock object it deleted)
+        self.read_resolves: Dict[str, Tuple[int, int]] = {}      # actor -> (operation index, pointer resolutions of that read so far)
         self.heartbeats: List[Any] = []             # S3 lock providers whose lease would be renewed by a heartbeat thread
         self.etag_names: Dict[Any, Dict[str, int]] = {}
         self.gc_started = False                     # a collection run has begun (no back-dating from here on)
@@ -811,6 +812,13 @@ def install(env: Env) -> None:
         if a is None or getattr(_tls, "resolve", None) is not None:
             return orig_cvi(self)
         why = resolve_purpose(_frames(1))
+        if why in ("read", "read2"):
+            # the FIRST pointer resolution of a read operation is the one the read is judged by ("read"); any further one
+            # inside the same read is a second look ("read2") - independent of which library function makes it
+            seen = env.read_resolves.get(a.name, (-1, 0))
+            n_prev = seen[1] if seen[0] == env.opi.get(a.name, 0) else 0
+            why = "read" if n_prev == 0 else "read2"
+            env.read_resolves[a.name] = (env.opi.get(a.name, 0), n_prev + 1)
         ctx: Dict[str, Any] = {"slot": None}
         _tls.resolve = ctx
         try:
